@@ -69,7 +69,7 @@ CHECKS = {
         category="model_checking",
         technique="TLC model checking of Fits.tla (budgeted reference walk vs independent structure size; in-bounds reads; bounded work) + replay of every (shape, view, corruption, n) vector into size_bytes_checked on guard-paged buffers with a step-counter hook",
         text="Every truncation point n of every explored image, every single overwrite of a blockLength/numInGroup/length field with {0,1,fit-1,fit+1,type max} (pairs in thorough), message and group views: returned (valid,size), no read at offset >= n (PROT_NONE page at n), no assertion, step count <= K(n+1).",
-        note="Two finding classes recorded, not repaired: wire blockLength smaller than the compiled fields' extent (fields read past the validated block) and assertion-enabled builds aborting in get_header before validation.",
+        note="All six finding classes were repaired in /repo (three fix commits). Trusts TLC, compilers, the guard-page harness; work bound K(n+1) observed through the guarded step-counter hook.",
         design="5/C06"),
     "C09": dict(
         category="exploration",
